@@ -131,6 +131,10 @@ def run(tier):
             chars = [rng.choice(b" abcdefghijklmnopqrstuvwxyz,;:.!?'-0123456789#^_\"=+<>/") for _ in range(rng.randint(1, 20))]
             ops.append("C2D %s 0 %s" % (corpus.tpath(t), common.wide(chars)))
             cells = corpus.rand_braille(rng, 20, dots_io=True)
+            if rng.random() < 0.35:
+                # the corners of the Unicode braille block (U+2800, U+28FF) and of the flagged range
+                k = rng.randrange(len(cells) + 1)
+                cells.insert(k, rng.choice([0x80ff, 0x80ff, 0x8000, 0x80fe, 0x8080]))
             other = rng.choice([0, 256, 128])
             cap = st.caps_for(rng, len(cells))
             ops.append(st.gen_bwd_op(rng, t, cells, mode=4 | other, cap=cap, argmask=28, cursor=0))
